@@ -128,8 +128,8 @@ impl<'a> G<'a> {
         self.feat("string");
         match self.u.below(8) {
             0 => self.p("'abc'"), 1 => self.p("'it''s'"), 2 => self.p("'a;b,c)'"), 3 => self.p("\"plain\""), 4 => self.p("\"say \"\"hi\"\"\""),
-            5 => { self.p("\"x"); self.mvar(true); self.p(" y\""); self.feat("strexpr-mvar"); }
-            6 => { self.p("\"p "); if self.u.coin(1, 2) { self.user_call(1); } else { self.feat("strexpr-builtin"); self.d_inc(); self.builtin_call(1); self.depth -= 1; } self.p(" q\""); self.feat("strexpr-call"); }
+            5 => { self.p("\"x"); self.tp(); self.mvar(true); self.tp(); self.p(" y"); self.tp(); self.p("\""); self.feat("strexpr-mvar"); }
+            6 => { self.p("\"p "); self.tp(); if self.u.coin(1, 2) { self.user_call(1); } else { self.feat("strexpr-builtin"); self.d_inc(); self.builtin_call(1); self.depth -= 1; } self.p(" q"); self.tp(); self.p("\""); self.feat("strexpr-call"); }
             _ => { let s = self.pick(&["'01jan2020'd", "'12:00't", "'1jan20:0:0'dt", "'my var'n", "'4a4B'x", "\"41,42\"X", "'1010'b", "\"&v\"d", "\"&v\"n", "\"&v\"t", "\"4&v\"x", "\"&v\"b", "\"&v\"dt", "\"&v\"DT", "\"100% sure\"", "\"a & b && c\"", "\"line1\nline2\"", "'a\nb'", "\"%m is 50% of &v\"", "''", "\"\""]); self.p(s); }
         }
     }
@@ -188,7 +188,7 @@ impl<'a> G<'a> {
                     }
                     match self.u.below(4) { 0 => self.mark(",", MK::Masked), 1 => self.mark("=", MK::Masked), 2 => self.mark(";", MK::Masked), _ => {} } }
                     self.gclose(); }
-                5 => { self.feat("quoted-in-arg"); let q = self.u.coin(1, 2); self.p(if q { "'" } else { "\"" }); self.p("s"); self.mark(",", MK::Masked); self.mark(")", MK::Masked); self.mark("=", MK::Masked); self.p(if q { "' " } else { "\" " }); }
+                5 => { self.feat("quoted-in-arg"); let q = self.u.coin(1, 2); self.p(if q { "'" } else { "\"" }); self.p("s"); self.tp(); if !q && self.u.coin(1, 3) { self.mvar(true); self.tp(); } self.mark(",", MK::Masked); self.mark(")", MK::Masked); self.mark("=", MK::Masked); self.p(if q { "' " } else { "\" " }); }
                 6 => { self.d_inc(); self.user_call(2); self.depth -= 1; self.p(" "); let w = self.pick(WORDS); self.p(w); }
                 7 => { self.d_inc(); self.builtin_call(2); self.depth -= 1; }
                 8 => { self.p("="); let w = self.pick(WORDS); self.p(w); } // '=' inside value text is just text (after first token / when not a name)
@@ -277,7 +277,7 @@ impl<'a> G<'a> {
             6 => { self.d_inc(); self.builtin_call(2); self.depth -= 1; }
             7 => { if float { let s = self.pick(&["1.5", "2.", ".25", "1e3", "2.5E-1"]); self.p(s); } else { self.mark("7", MK::IntOperand); } }
             8 => { self.p("'q'"); }
-            _ => { self.p("\"d"); self.mvar(true); self.p("\""); }
+            _ => { self.p("\"d"); self.tp(); self.mvar(true); self.tp(); self.p("\""); }
         }
         self.marks.len() == l0 + 1 && matches!(self.marks[l0].kind, MK::IntOperand)
     }
